@@ -108,8 +108,100 @@ def gating(ctx):
         ctx.item("C15/U1/main_with_args:--%s-content" % lst, ok, "--%s is not written as ' '.join(config.%s)" % (lst, lst))
 
 
+EMITTER_LANG = {"wrapc.py": "c", "wrapf.py": "fortran", "wrapp.py": "python", "wrapl.py": "lua"}
+
+
+def declaration_gates(ctx):
+    """U3: inside an emitter every loop over the classes / namespaces of a container handles an element only under
+    that element's OWN flag for the emitter's language: the first conditional of the loop body is
+    `if not V.wrap.<lang>: continue`, or the body is a single `if V.wrap.<lang>:`.  Only plain assignments may precede it."""
+    for fn, lang in sorted(EMITTER_LANG.items()):
+        tree = ast.parse(open(os.path.join(REPO, "shroud", fn)).read())
+        for func in [n for n in ast.walk(tree) if isinstance(n, ast.FunctionDef)]:
+            for loop in [n for n in ast.walk(func) if isinstance(n, ast.For)]:
+                it = loop.iter
+                if not (isinstance(it, ast.Attribute) and it.attr in ("classes", "namespaces") and isinstance(loop.target, ast.Name)):
+                    continue
+                v = loop.target.id
+                want = "%s.wrap.%s" % (v, lang)
+                ok, seen = False, None
+                for st in loop.body:
+                    if isinstance(st, ast.Assign) and not any(isinstance(x, ast.Call) for x in ast.walk(st)):
+                        continue
+                    if isinstance(st, ast.If):
+                        seen = ast.unparse(st.test)
+                        if seen == "not " + want and len(st.body) == 1 and isinstance(st.body[0], ast.Continue) and not st.orelse:
+                            ok = True
+                        elif seen == want and not st.orelse and st is loop.body[-1]:
+                            ok = True
+                    break
+                ident = "C15/U3/%s:%s:for-%s-in-%s:own-flag" % (fn, func.name, v, it.attr)
+                ctx.item(ident, ok, "the loop over %s at %s:%d does not start with the element's own gate `%s` (first test: %r)"
+                         % (ast.unparse(it), fn, loop.lineno, want, seen),
+                         sample={"site": "%s:%d" % (fn, loop.lineno), "gate": want},
+                         confirm=lambda: ctx.monitor("m_wrapsel", "search", 80, ctx.seed))
+
+
+def noninterference(ctx):
+    """U4: switching the Python / Lua wrapper must not change C / Fortran bytes.  Every READ of a Python or Lua wrap flag
+    (X.wrap.python / X.wrap.lua, WrapFlags' own .python/.lua, options.wrap_python / wrap_lua) in a module that runs
+    before or inside the C / Fortran emitters is one of:
+      copy     WrapFlags bookkeeping in ast.py: the value only flows into another flag object's .python/.lua field
+      gate     main_with_args: `if wrap.python:` / `if wrap.lua:` guarding the Python / Lua emitter
+      struct   generate.py: `cls.wrap.python and options.PY_struct_arg == 'class'` adding a constructor used by the
+               Python wrapper only (listed residual assumption; covered by the bounded monitor)
+    anything else lets the Python / Lua switch steer a decision shared with the C / Fortran wrappers."""
+    mods = [f for f in sorted(os.listdir(os.path.join(REPO, "shroud"))) if f.endswith(".py") and f not in ("wrapp.py", "wrapl.py")]
+    for fn in mods:
+        tree = ast.parse(open(os.path.join(REPO, "shroud", fn)).read())
+        par = parents_of(tree)
+        for n in ast.walk(tree):
+            if not (isinstance(n, ast.Attribute) and isinstance(n.ctx, ast.Load)):
+                continue
+            flag = None
+            if n.attr in ("python", "lua"):          # whatever name the flag object travels under
+                flag = n.attr
+            elif n.attr in ("wrap_python", "wrap_lua"):
+                flag = n.attr[5:]
+            if flag is None:
+                continue
+            # enclosing function / class
+            cur, func, cls = n, None, None
+            while id(cur) in par:
+                cur = par[id(cur)]
+                if isinstance(cur, ast.FunctionDef) and func is None:
+                    func = cur
+                if isinstance(cur, ast.ClassDef) and cls is None:
+                    cls = cur
+            stmt = n
+            while id(stmt) in par and not isinstance(stmt, ast.stmt):
+                stmt = par[id(stmt)]
+            why = None
+            if fn == "ast.py" and cls is not None and cls.name == "WrapFlags":
+                # value flows only into self.<same flag>
+                if isinstance(stmt, ast.Assign) and all(isinstance(t, ast.Attribute) and t.attr == flag and
+                                                        isinstance(t.value, ast.Name) and t.value.id == "self" for t in stmt.targets):
+                    why = "copy"
+                elif isinstance(stmt, (ast.Return, ast.Expr)) or (func is not None and func.name in ("__repr__", "__str__")):
+                    why = "copy"
+            elif fn == "main.py" and func is not None and func.name == "main_with_args" and isinstance(stmt, ast.If) \
+                    and ast.unparse(stmt.test) == "wrap.%s" % flag:
+                why = "gate"
+            elif fn == "generate.py" and isinstance(stmt, ast.If) and \
+                    ast.unparse(stmt.test) == "cls.wrap.python and options.PY_struct_arg == 'class'":
+                why = "struct"
+            ident = "C15/U4/%s:%s:%d:reads-%s-flag" % (fn, (cls.name + "." if cls else "") + (func.name if func else "<module>"), n.lineno, flag)
+            ctx.item(ident, why is not None,
+                     "%s:%d reads the %s wrap flag (%s) outside the Python/Lua emitters: the switch can change what the "
+                     "C and Fortran wrappers see" % (fn, n.lineno, flag, ast.unparse(stmt)[:80].split("\n")[0]),
+                     sample={"site": "%s:%d" % (fn, n.lineno), "kind": why},
+                     confirm=lambda: ctx.monitor("m_wrapsel", "search", 80, ctx.seed))
+
+
 def run(ctx):
     file_sites(ctx)
+    noninterference(ctx)
+    declaration_gates(ctx)
     gating(ctx)
     # "exactly the files written in THIS run": the registration lists are per-run objects
     from effects.history import fresh_per_run_lists, history_items
